@@ -450,8 +450,21 @@ pub fn run(cfg: &Cfg, rep: &mut Report) {
         let b2 = rng.below((255 - b1) as u64 + 1) as u32;
         let x2 = rand_big(&mut rng, b1);
         let y2 = rand_big(&mut rng, b2);
-        let d2 = match rng.below(4) {
+        let d2 = match rng.below(5) {
             0 => BigInt::zero(),
+            // an exact division with a large divisor: d = a factor of x times a factor of y
+            4 => {
+                let fx = rand_big(&mut rng, (b1 / 2).max(1));
+                let fy = rand_big(&mut rng, (b2 / 2).max(1));
+                let (x3, y3) = (&x2 - (&x2 % if fx.is_zero() { BigInt::one() } else { fx.clone() }), &y2 - (&y2 % if fy.is_zero() { BigInt::one() } else { fy.clone() }));
+                let dd = &fx * &fy;
+                if !dd.is_zero() && fits256(&(&x3 * &y3)) {
+                    check_256(&c, rep, &x3, &y3, &dd, plain && h % 2 == 0);
+                    check_256(&c, rep, &x3, &y3, &-&dd, plain && h % 2 == 1);
+                    rep.count("i256_exact_large_divisor");
+                }
+                dd
+            }
             1 => { let b = rng.below(255) as u32 + 1; rand_big(&mut rng, b) }
             2 => { let b = rng.below(127) as u32 + 1; BigInt::from(rand_signed(&mut rng, b)) }
             _ => {
@@ -463,7 +476,7 @@ pub fn run(cfg: &Cfg, rep: &mut Report) {
         check_256(&c, rep, &x2, &y2, &d2, plain && h % 2 == 0);
     }
     // I256 boundary lattice
-    if cfg.shard == 0 {
+    {
         let one = BigInt::one();
         let p255: BigInt = &one << 255u32;
         let p128: BigInt = &one << 128u32;
@@ -484,11 +497,28 @@ pub fn run(cfg: &Cfg, rep: &mut Report) {
             p128.clone(),
             &p255 - 2,
             &p255 - 1,
+            // neighbours of the i128 / u128 boundaries and of the WAD scale, small odd values
+            &p127 - 1,
+            &p127 + 1,
+            -&p127 - 1,
+            -&p127 + 1,
+            &p128 - 1,
+            &p128 + 1,
+            -&p128 + 1,
+            BigInt::from(WAD_SCALE) + 1,
+            BigInt::from(WAD_SCALE) - 1,
+            -BigInt::from(WAD_SCALE),
+            BigInt::from(-3),
+            BigInt::from(7),
         ];
-        for x in &l256 {
+        // split over the shards by the first operand; the plain (panicking) variants see the lattice too
+        for (xi, x) in l256.iter().enumerate() {
+            if xi as u32 % cfg.nshards != cfg.shard {
+                continue;
+            }
             for y in &l256 {
                 for d in &l256 {
-                    check_256(&c, rep, x, y, d, false);
+                    check_256(&c, rep, x, y, d, true);
                 }
             }
         }
